@@ -2,7 +2,7 @@
 From Coq Require Import ZArith List String Bool Lia Permutation.
 From Acme.C12 Require Import Proto NetModel Save Load Proj Domain Lemmas SigLemmas
      ProofsRT1 ProofsRT2 ProofsRT3 ProofsRT4 ProofsRT5 ProofsRT6 ProofsCanon
-     ProofsMuxRT1 ProofsMuxRT4 ProofsMuxRT5 ProofsMuxRT6.
+     ProofsMuxRT1 ProofsMuxRT2 ProofsMuxRT4 ProofsMuxRT5 ProofsMuxRT6.
 Import ListNotations.
 Open Scope Z_scope.
 
@@ -138,13 +138,17 @@ Proof.
   intros m Hm. unfold sigs_rt.
   destruct (msg_sigs_facts_gen m Hm) as (F1 & F2 & F3 & F4 & F5).
   assert (Hper : forall s, In s (m_signals m) ->
-             load_sig now (net_env (canon n)) (save_sig s) = Ok (sig_set_pos s 0) /\
+             load_sig now (net_env (canon n)) (m_size m * 8) (save_sig s) = Ok (sig_set_pos s 0) /\
              sig_size (net_env (canon n)) s = sig_size (net_env n) s).
   { intros s Hs. destruct (F2 s Hs) as (A & B & C).
     apply (rt_sig_all now n); try (apply agree_canon; auto).
-    repeat split; auto.
-    - intros t Ht. unfold all_sigs. apply in_flat_map. exists m. split; auto. apply in_flat_map. eauto.
-    - intros a b Ha Hb. apply F5; apply in_flat_map; eauto. }
+    - repeat split; auto.
+      + intros t Ht. unfold all_sigs. apply in_flat_map. exists m. split; auto. apply in_flat_map. eauto.
+      + intros a b Ha Hb. apply F5; apply in_flat_map; eauto.
+    - (* a top-level multiplexer fits in the payload *)
+      destruct (layout_okb_facts _ _ _ _ F1) as [_ F]. specialize (F s Hs).
+      destruct s as [h0 t0 u0|h0 e0|h0 c0 z0 g0]; cbn [mux_fits]; auto.
+      cbn [sig_size] in F. pose proof (calc_size_nonneg (c0 - 1)). lia. }
   apply (sigs_rt_compose now (net_env n) (net_env (canon n))); auto.
   - intros s Hs. apply Hper; auto.
   - intros s Hs. apply Hper; auto.
